@@ -11,7 +11,7 @@ PROP = "C06"
 NEED_JSONSCHEMA = True
 SHARDS = {"quick": 8, "thorough": 16}
 TIME_CAP = {"quick": 70, "thorough": 900}
-REQUIRED = ["primitive_union_programs", "agree_valid", "agree_invalid", "programs", "meta_schema_checks", "per_call_schema_programs", "std_programs", "all_refs_programs", "recursive_programs", "discriminated_families", "discriminated_agree"]
+REQUIRED = ["conversion_graphs", "conversion_agreement_checks", "primitive_union_programs", "agree_valid", "agree_invalid", "programs", "meta_schema_checks", "per_call_schema_programs", "std_programs", "all_refs_programs", "recursive_programs", "discriminated_families", "discriminated_agree"]
 RULE = ("C01 program space + standard-library converted types (UUID, date/datetime/time, Decimal, bytes, Path, ip addresses, Pattern) x JSON data "
         "(atoms, model-valid data, boundary mutants, random deep JSON) x additional_properties x aliaser x all_refs x per-call schema=; data outside the common "
         "semantic domain are skipped and counted (integer-valued floats, duplicate items with set-typed positions, ill-formatted strings at format-only positions). "
@@ -307,6 +307,8 @@ def run(env):
     harness.tag_errors(True)
     from vf import disc
     disc.run_family(env, disc.check_c06, env.n(96, 4000))  # discriminated-union families first (their own budget)
+    from vf import convfam
+    convfam.run_family(env, 'deserialize', env.n(480, 12000))  # conversion graphs under every placement (registered / default_conversion / dynamic / field)
     # every ordered union of 2 or 3 bare primitives (the schema builder merges their "type" keywords)
     import itertools
     from vf.spec import Prim, Union_
